@@ -3,7 +3,7 @@ import random
 import vlib, qsys
 
 QB = ["BB:256:256", "BB:512:512", "UB:256:1024", "UB:128:4096"]
-QD = ["BD:256:256", "BD:512:512", "UD:128:512", "UD:256:256"]
+QD = ["BD:256:256", "BD:512:512", "UD:128:512", "UD:256:256", "UD:256:1024"]
 
 
 def _base(rng, qk, **kw):
@@ -163,6 +163,26 @@ def c08(rng, qk):
         for _ in range(3):
             s.op("B drain")
             s.op("T t0 go")
+    if targeted and not bounded and mx >= 2 * cap and s.alive:
+        # a read pass that ends exactly at the end of a buffer (hard limit reached on the record that fills it) while a second
+        # buffer holds more, the producer gone, and another thread's flush_log() next in line
+        u = sorted(s.alive)[0]
+        for v in sorted(s.alive):
+            s.op(f"T {v} go")
+        s.op("B drain")
+        hard = int(s.L[0].split("hard=")[1].split()[0])
+        if (cap // hard) >= qsys.HDR and cap % hard == 0:
+            t = f"t{len(s.threads)}"
+            s.start(t)
+            for _ in range(hard):
+                s.log(t, "L0", pad=cap // hard - qsys.HDR)          # together they fill the first buffer exactly
+            for _ in range(rng.randint(1, 3)):
+                s.log(t, "L0", pad=rng.randint(0, 8))               # these go to the second buffer
+            s.join(t)
+            s.op(f"T {u} flush L0")
+            for _ in range(3):
+                s.op("B poll")
+                s.op(f"T {u} go")
     if targeted and bounded:
         # a drop followed by the thread's exit while the backend is inside an idle poll (after its failure-counter check)
         t = f"t{len(s.threads)}"
@@ -180,15 +200,19 @@ def c08(rng, qk):
 
 # --------------------------------------------------------------------------- C09 (end to end)
 def c09(rng, qk):
-    s, cap, mx, bounded = _base(rng, qk, grace=0, soft=rng.choice([1, 4]), hard=8, ring=2)
+    # small transit-event limits: a read pass often ends because the hard limit is reached - also exactly on the record that
+    # empties the queue
+    hard = rng.choice([1, 2, 4, 8])
+    s, cap, mx, bounded = _base(rng, qk, grace=0, soft=rng.choice([x for x in (1, 4) if x <= hard]), hard=hard, ring=2)
     s.sink("S0")
     s.logger("L0", ["S0"], lvl=0)
     s.start("t0")
     limit = cap if bounded else mx
     for _ in range(rng.randint(1, 4)):
         # a history of earlier statements, partly or fully consumed
-        for _ in range(rng.randint(1, 4)):
-            s.log("t0", "L0", pad=rng.choice([0, 0, 4, 8, rng.randint(0, limit // 4)]))
+        nhist = rng.choice([rng.randint(1, 4), hard, hard, 2 * hard])
+        for _ in range(min(nhist, 10)):
+            s.log("t0", "L0", pad=rng.choice([0, 0, 4, 8, rng.randint(0, limit // 4)]) if nhist <= 4 else rng.choice([0, 4, 8]))
         s.op("B drain" if rng.random() < 0.7 else "B poll")
         # then a statement of any size up to the capacity
         s.log("t0", "L0", pad=limit - qsys.HDR - rng.choice([0, 0, 1, 8, rng.randint(0, 64)]))
@@ -280,8 +304,15 @@ def c16(rng, qk):
 # --------------------------------------------------------------------------- C17
 def c17(rng, qk):
     s, cap, mx, bounded = _base(rng, qk, grace=0, soft=rng.choice([1, 2, 4]), hard=8, ring=rng.choice([1, 2]))
+    # in a third of the scenarios one sink's flush fails persistently from some call on (full disk): the backend must not keep
+    # using a sink it has flushed-with-error once the sink's last owner is gone
+    bad = rng.randrange(4) if rng.random() < 0.34 else -1
+    first = rng.randint(1, 6)
     for i in range(4):
-        s.sink(f"S{i}")
+        if i == bad:
+            s.sink(f"S{i}", tf=",".join(str(x) for x in range(first, first + 90)))
+        else:
+            s.sink(f"S{i}")
     sinksets = [["S0"], ["S0", "S1"], ["S1"], ["S2"], ["S1", "S2"], ["S3"], ["S0", "S3"]]
     live = {}
     for n in ("L0", "L1", "L2"):
